@@ -116,9 +116,21 @@ def scan_forbidden():
                 p = os.path.join(root, f)
                 txt = open(p).read()
                 txt = strip_comments(txt)
-                for m in FORBIDDEN.finditer(txt):
-                    # Variable/Hypothesis are fine inside a Section; we simply do not use them
-                    bad.append('%s: %s' % (os.path.relpath(p, COQ), m.group(0)))
+                # Variable / Hypothesis are section-local binders inside a Section (allowed);
+                # outside one they would declare an axiom
+                depth = 0
+                for sent in re.split(r'(?<=\.)\s', txt):
+                    st = sent.strip()
+                    if re.match(r'Section\s+\w+\s*\.$', st):
+                        depth += 1
+                        continue
+                    if re.match(r'End\s+\w+\s*\.$', st) and depth > 0:
+                        depth -= 1
+                        continue
+                    for m in FORBIDDEN.finditer(sent):
+                        if depth > 0 and m.group(0) in ('Variable', 'Hypothesis'):
+                            continue
+                        bad.append('%s: %s' % (os.path.relpath(p, COQ), m.group(0)))
     return bad
 
 
